@@ -110,6 +110,21 @@ theorem argument_named_f_is_the_variable (P : Params) (s : Stack) (v : Val) (h :
     resolveArgument P s ['f'] = .ok v := by
   simp [resolveArgument, trimSpace, trimLeft, trimRight, isSpace, atoi, isDigit, parseSimpleFloat, splitFirst, List.span, List.span.loop, parseBool, h]
 
+/-- a quoted argument is the text between the quotes — whatever that text spells (a variable name, digits, true, nothing at all): it is never
+    looked up, parsed as a number or dropped (fix cb2a50f: parseArgs keeps the quotes, so this rule of resolveArgument is reached) -/
+theorem quoted_argument_is_literal (P : Params) (s : Stack) (t : Str) :
+    resolveArgument P s ('"' :: t ++ ['"']) = .ok (.str t) := by
+  have htrim : trimSpace ('"' :: t ++ ['"']) = '"' :: t ++ ['"'] := by
+    have hq : isSpace '"' = false := by decide
+    simp [trimSpace, trimLeft, trimRight, hq, List.reverse_append]
+  have hlast : ('"' :: (t ++ ['"'])).getLast? = some '"' := by
+    have : '"' :: (t ++ ['"']) = ('"' :: t) ++ ['"'] := rfl
+    rw [this, List.getLast?_append]; simp
+  simp only [resolveArgument, htrim]
+  simp [hlast]
+
+example : parseArgs "\"s\", '', x".toList = ["\"s\"".toList, "''".toList, "x".toList] := by decide
+
 /-- PARTIAL statement of "same value wherever it is allowed": it holds for operator expressions (above) and for plain paths … -/
 theorem path_same_in_text_and_attr (P : Params) (s : Stack) (e : Str) (v : Val) (hr : routesToPipe e = false)
     (hni : Generated.containsInterpolation e = false) (hno : (hasPrefix e ['{'] && hasSuffix e ['}']) = false) (ht : trimSpace e = e)
